@@ -103,6 +103,9 @@ func H_l3_longrun() {
 		vAssume(vStrLt(ta, tb))
 		keys = []string{"a", P + ta, P + tb, "z"}
 		vals = []uint16{1, 2, 3, 4}
+		// the list must be ascending (only an empty run leaves that to the tails)
+		vAssume(vStrLt(keys[0], keys[1]))
+		vAssume(vStrLt(keys[2], keys[3]))
 	} else {
 		// the run ends at a 257-bit node: `fan` keys P + distinct byte + symbolic tail
 		fan := vParam("fan")
